@@ -218,6 +218,12 @@ def text_edge(func: FuncInfo, e: ast.AST | None, side: str) -> str | None:
 		# a parameter counts as its default only when it is named like a delimiter (callers pass separators)
 		if d is not None and e.id in ('delimiter', 'separator', 'sep'):
 			return text_edge(func, d, side)
+		# a local bound once to a string-building expression (`child_prefix = f'{key}.'`) has the edge of that expression
+		if func is not None and e.id not in func.params():
+			from vlib.norm import Expander
+			v = Expander(func).local_def(e.id)
+			if isinstance(v, (ast.Constant, ast.JoinedStr, ast.BinOp)):
+				return text_edge(func, v, side)
 		return None
 	if isinstance(e, ast.Attribute) and attr_chain(e) in ('os.sep', 'os.path.sep'):
 		return '/'
